@@ -81,17 +81,28 @@ Qed.
 
 End ne.
 
-(* K10: the zero-request case is false of the faithful model -- reinstating (Reserve) an exclusive
-   grant that takes the last sharable CPUs of a pool is accepted, and a zero-request container of
-   that pool is told an empty cpuset.  One pool with sharable CPUs {4,5}. *)
+(* K10: the zero-request case is still false of the faithful model.  Reinstatement now refuses the history that
+   used to produce it (a Reserve that takes the last sharable CPUs of a pool, then a BestEffort container reinstated
+   there) ... *)
 Definition k10_tree : tree := [ {| p_parent := None; p_iso := ∅; p_res := ∅; p_shar := list_to_set [4%nat; 5%nat] |} ].
 Definition k10_ops : list op :=
   [ OReserve 1 {| g_pool := 0; g_excl := list_to_set [4%nat; 5%nat]; g_type := CpuNormal; g_portion := 0 |};
     OReserve 6 {| g_pool := 0; g_excl := ∅; g_type := CpuNormal; g_portion := 0 |} ].
+Lemma k10_reserve_refused : run k10_tree (init k10_tree) k10_ops = Err (ErrGuard 14).
+Proof. vm_compute. reflexivity. Qed.
 
+(* ... but a zero-request container can still be ALLOCATED into a pool that has no sharable CPU left: AllocateCPU
+   tests nothing for a request without CPUs.  A child pool {4,5} under a root {4,5,6}: a 2-CPU container takes 4,5 at
+   the root while the child is empty, then a BestEffort container is placed in the child. *)
+Definition k10a_tree : tree :=
+  [ {| p_parent := Some 1%nat; p_iso := ∅; p_res := ∅; p_shar := list_to_set [4%nat; 5%nat] |};
+    {| p_parent := None; p_iso := ∅; p_res := ∅; p_shar := list_to_set [4%nat; 5%nat; 6%nat] |} ].
+Definition k10a_ops : list op :=
+  [ OAlloc 1 {| r_full := 2; r_fraction := 0; r_isolate := false; r_type := CpuNormal |} 1 (list_to_set [4%nat; 5%nat]);
+    OAlloc 6 {| r_full := 0; r_fraction := 0; r_isolate := false; r_type := CpuNormal |} 0 ∅ ].
 Lemma nonempty_refuted :
-  tree_wfb2 k10_tree = true /\
-  match run_g k10_tree (init k10_tree) k10_ops with
-  | Ok s => bool_decide (told_cpus k10_tree s {| g_pool := 0; g_excl := ∅; g_type := CpuNormal; g_portion := 0 |} = ∅) = true
+  tree_wfb2 k10a_tree = true /\
+  match run_g k10a_tree (init k10a_tree) k10a_ops with
+  | Ok s => bool_decide (told_cpus k10a_tree s {| g_pool := 0; g_excl := ∅; g_type := CpuNormal; g_portion := 0 |} = ∅) = true
   | Err _ => False end.
 Proof. vm_compute. split; reflexivity. Qed.
